@@ -10,6 +10,7 @@ use routee_compass_core::{
             turn_delay_model::TurnDelayModel,
         },
     },
+    model::unit::as_f64::AsF64,
     util::fs::read_utils,
 };
 use std::sync::Arc;
@@ -44,6 +45,15 @@ impl AccessModelBuilder for TurnDelayAccessModelBuilder {
                     e
                 ))
             })?;
+        // a delay is time added to the trip: a negative (or NaN) entry would make the reported
+        // time run backwards along a route
+        let TurnDelayModel::TabularDiscrete { table, .. } = &turn_delay_model;
+        if let Some((turn, delay)) = table.iter().find(|(_, d)| !(d.as_f64() >= 0.0)) {
+            return Err(AccessModelError::BuildError(format!(
+                "failure reading 'turn_delay_model' from access model configuration: delay {} for turn {} is not a non-negative number",
+                delay, turn
+            )));
+        }
         let time_feature_name = parameters
             .get_config_serde_optional::<String>(&"time_feature_name", &"turn delay access model")
             .map_err(|e| {
